@@ -166,7 +166,10 @@ def drain_all(ctx):
         if not pops:
             continue
         m += 1
-        ok = len(push) == 1 and payload_of(push[0][4][2][1]) is not None and norm(payload_of(push[0][4][2][1])) == norm(pops[-1][4])
+        item = look(push[0][4][2][1]) if len(push) == 1 else None
+        if item is not None and is_call(item, "server::ServerRequest::new"):
+            item = look(item[2][0])     # read() wraps the request itself before pushing it onto the caller's vector
+        ok = item is not None and payload_of(item) is not None and norm(payload_of(item)) == norm(pops[-1][4])
         ctx.ob("R08.6", "read|each-popped-pushed", ok, "each request popped after a successful read is pushed onto the vector read() returns", fn.loc(lf.bb))
     from .util import caller_fns
     pc = caller_fns(ctx.facts, conn.P + "pop_parsed_request")
